@@ -1,9 +1,138 @@
-"""SCTE-35 part of C14 (filled in below)."""
+"""SCTE-35 part of C14: the generated splice carries the scheduled values and
+parse(encode(sig)) returns them with a valid CRC and correct back-patched lengths."""
+from __future__ import annotations
+
+OBLIGATION_LABELS = ['C14.scte.fields', 'C14.scte.rt', 'C14.scte.exc']
+MPEG_TIMEBASE = 90000
+TES = [100, 1000, 90000]
+
+
+def _events(sx, te, count_mode):
+    from dashlive.server.events.scte35_events import Scte35Events
+    duration = sx.int('ev_duration', 0, 2 ** 31 - 1)
+    if count_mode == 'unbounded':
+        count = 0
+    else:
+        count = sx.int('count', 1, 2 ** 20)
+    ev = Scte35Events(start=0, count=count, interval=1000, duration=duration, timescale=te,
+                      inband=True, value='')
+    return ev, count, duration
+
+
+def h_scte(sx, te, count_mode):
+    from pysx.core import sx_and, sx_divmod, sx_implies
+    from dashlive.scte35.binarysignal import BinarySignal
+    from dashlive.utils.buffered_reader import BufferedReader
+    import bitstring
+    import struct
+    ev, count, duration = _events(sx, te, count_mode)
+    k = sx.int('event_id', 0, 2 ** 31)
+    if count_mode != 'unbounded':
+        sx.assume(k < count, 'event ids the schedule can produce: 0 <= id < count')
+    t = sx.int('presentation_time', 0, 2 ** 44)
+    det = {'event_id': k, 'count': count, 'presentation_time': t, 'duration': duration}
+    try:
+        splice = ev.create_binary_signal(k, t)
+        data = splice.encode()
+    except Exception as e:
+        sx.fail('C14.scte.exc', detail=dict(det, raised=type(e).__name__, msg=str(e)[:100]))
+        return
+    sx.prove(True, 'C14.scte.exc')
+    si = splice.splice_insert
+    want_pts = sx_divmod(sx_divmod(t * MPEG_TIMEBASE, te)[0], 1 << 33)[1]
+    want_dur = sx_divmod(duration * MPEG_TIMEBASE, te)[0]
+    # the break duration is a 33 bit field: the schedule value is carried while it is representable
+    sx.prove(sx_and(si.splice_event_id == k, si.splice_time.pts == want_pts,
+                    sx_implies(want_dur < (1 << 33), si.break_duration.duration == want_dur),
+                    si.break_duration.auto_return == (sx_divmod(k, 2)[1] == 0)),
+             'C14.scte.fields', detail=dict(det, pts=si.splice_time.pts, want_pts=want_pts))
+    # round trip
+    try:
+        src = BufferedReader(None, data=data)
+        kw = BinarySignal.parse(src, size=len(data))
+    except Exception as e:
+        sx.fail('C14.scte.rt', detail=dict(det, raised=type(e).__name__, msg=str(e)[:100]))
+        return
+    psi = kw['splice_insert']
+    desc = kw['descriptors'][0]
+    sd = splice.descriptors[0]
+    n = len(data)
+    ok = sx_and(
+        kw['table_id'] == 0xFC, kw['crc_valid'] is True or kw['crc_valid'] == True,   # noqa: E712
+        kw['section_length'] == n - 3,
+        kw['splice_command_type'] == 5,
+        psi['splice_event_id'] == k,
+        psi['splice_time']['pts'] == want_pts,
+        psi['break_duration']['duration'] == si.break_duration.duration,
+        psi['break_duration']['auto_return'] == si.break_duration.auto_return,
+        psi['unique_program_id'] == 1620,
+        psi['avail_num'] == si.avail_num, psi['avails_expected'] == si.avails_expected,
+        psi['out_of_network_indicator'] == True,   # noqa: E712
+        len(kw['descriptors']) == 1,
+        desc['segmentation_event_id'] == sd.segmentation_event_id,
+        desc['segmentation_type'] == sd.segmentation_type,
+        desc['tag'] == 2,
+    )
+    sx.prove(ok, 'C14.scte.rt', detail=dict(det, n=n, crc_valid=kw['crc_valid'],
+                                            section_length=kw['section_length'],
+                                            splice_command_length=kw.get('splice_command_length')))
+    # back-patched lengths equal the byte counts: 3 header bytes + 11 fixed bytes up to and
+    # including splice_command_type, the command, the 2-byte loop length, the loop, the CRC
+    cmd_len = kw['splice_command_length']
+    loop_len = desc['length'] + 2
+    sx.prove(sx_and(n == 3 + 11 + cmd_len + 2 + loop_len + 4, kw['section_length'] == n - 3),
+             'C14.scte.rt', detail={'n': n, 'cmd_len': cmd_len, 'loop_len': loop_len})
+    sx.note('expect', {'data': data})
 
 
 def instances(tier):
-    return []
+    out = []
+    tes = TES if tier == 'thorough' else TES[:2]
+    for te in tes:
+        for cm in ('unbounded', 'finite'):
+            out.append({'name': f'scte[te={te},{cm}]', 'fn': h_scte, 'params': {'te': te, 'count_mode': cm},
+                        'opts': {'max_paths': 5000, 'max_decisions': 2000}})
+    return out
+
+
+# ---------------------------------------------------------------------------
+
+def _real(params, inputs):
+    from dashlive.server.events.scte35_events import Scte35Events
+    from dashlive.scte35.binarysignal import BinarySignal
+    from dashlive.utils.buffered_reader import BufferedReader
+    count = 0 if params['count_mode'] == 'unbounded' else inputs['count']
+    ev = Scte35Events(start=0, count=count, interval=1000, duration=inputs['ev_duration'],
+                      timescale=params['te'], inband=True, value='')
+    splice = ev.create_binary_signal(inputs['event_id'], inputs['presentation_time'])
+    data = splice.encode()
+    kw = BinarySignal.parse(BufferedReader(None, data=data), size=len(data))
+    return splice, data, kw
+
+
+def observe(instance, params, inputs):
+    try:
+        splice, data, kw = _real(params, inputs)
+    except Exception as e:
+        return {'raised': type(e).__name__}
+    return {'data': data.hex()}
 
 
 def replay(case):
-    return {'violated': False, 'observed': None}
+    params, inputs, label = case['params'], case['inputs'], case['label']
+    te = params['te']
+    try:
+        splice, data, kw = _real(params, inputs)
+    except Exception as e:
+        return {'violated': True, 'observed': {'raised': type(e).__name__, 'msg': str(e)[:200], 'inputs': inputs}}
+    k, t = inputs['event_id'], inputs['presentation_time']
+    want_pts = (t * MPEG_TIMEBASE // te) % (1 << 33)
+    want_dur = inputs['ev_duration'] * MPEG_TIMEBASE // te
+    psi = kw['splice_insert']
+    ok = (kw['crc_valid'] and kw['section_length'] == len(data) - 3 and psi['splice_event_id'] == k
+          and psi['splice_time']['pts'] == want_pts
+          and (want_dur >= (1 << 33) or psi['break_duration']['duration'] == want_dur)
+          and psi['break_duration']['auto_return'] == (k % 2 == 0))
+    return {'violated': not ok, 'observed': {'hex': data.hex(), 'parsed_event_id': psi['splice_event_id'],
+                                             'pts': psi['splice_time']['pts'], 'want_pts': want_pts,
+                                             'crc_valid': kw['crc_valid']}}
